@@ -2,6 +2,7 @@
 """Regenerates seeded/README.md from seeded/*/meta.json (+ optional 'strengthened' notes in meta)."""
 import json, glob, os
 rows = []
+notconf = []
 for f in sorted(glob.glob("/verif/seeded/*/meta.json")):
     m = json.load(open(f))
     res = m.get("checks_run", {}).get("results", [])
@@ -10,6 +11,9 @@ for f in sorted(glob.glob("/verif/seeded/*/meta.json")):
         if r["caught"]:
             caught.append(r["check"] + (" (no-failing-input-found)" if "no-failing-input-found" in r["output"] else ""))
     missed = [r["check"] for r in res if not r["caught"]]
+    if not m.get("confirmation", {}).get("result", "").startswith("CONFIRMED"):
+        notconf.append((m["id"], m.get("needs_to_manifest", ""), m.get("strengthened", "") or m.get("confirmation", {}).get("result", "")))
+        continue
     rows.append((m["id"], m["property"], m.get("needs_to_manifest", ""), ", ".join(caught) or "—",
                  ", ".join(missed) or "", m.get("strengthened", ""), m.get("confirmation", {}).get("result", "")[:9]))
 out = ["# Seeded changes", "",
@@ -26,5 +30,8 @@ for r in rows:
     out.append("| %s | %s | %s | %s | %s |" % (r[0], r[2], r[3], r[4], r[5]))
 n = len(rows); c = sum(1 for r in rows if r[3] != "—")
 out += ["", "%d changes, %d caught by the check of their own property or a neighbouring one." % (n, c), ""]
+if notconf:
+    out += ["## Not confirmed (kept for the record, not counted)", "", "| id | change | why not |", "|---|---|---|"]
+    out += ["| %s | %s | %s |" % r for r in notconf] + [""]
 open("/verif/seeded/README.md", "w").write("\n".join(out))
 print("%d seeds, %d caught" % (n, c))
